@@ -8,6 +8,7 @@ package main
 import (
 	"fmt"
 	"os"
+	"reflect"
 
 	"github.com/cockroachdb/redact"
 )
@@ -31,6 +32,7 @@ func main() {
 	for _, c := range commands {
 		if c.name == os.Args[1] {
 			scribble()
+			firstCalls()
 			c.run(os.Args[2:])
 			return
 		}
@@ -50,6 +52,31 @@ func scribble() {
 			full[i] = 'X'
 		}
 	}
+}
+
+// firstCalls: the first thing a process prints must not decide anything for what it prints later.  Before any stage the
+// harness makes the calls that are the most PERMISSIVE first instance of every position a value can stand in -- a
+// SafeValue in an interface-typed slice element, map value, struct field and reflect.Value, a Safe() wrapper next to
+// them, an error and a Stringer in the same slots -- so that whatever the library might remember per static type, per
+// call site or per printer (a cache of "is this a SafeValue", of field names, of a verdict) is filled in the way that
+// would LEAK if it were ever applied to the next value.
+func firstCalls() {
+	defer func() { recover() }()
+	type holder struct {
+		A interface{}
+		b interface{}
+		E error
+		S fmt.Stringer
+	}
+	sv := redact.SafeString("first")
+	_ = redact.Sprint([]interface{}{sv, redact.Safe(1), redact.SafeInt(2)}, map[string]interface{}{"k": sv}, map[interface{}]interface{}{sv: sv},
+		holder{sv, sv, nil, nil}, &holder{A: redact.Safe("x")}, reflect.ValueOf(sv), reflect.ValueOf([]interface{}{sv}).Index(0),
+		[]fmt.Stringer{nil}, []error{nil}, [1]interface{}{sv})
+	_ = redact.Sprintf("%v %+v %#v %s %d %q %x", sv, []interface{}{sv}, holder{A: sv}, sv, redact.SafeInt(3), sv, sv)
+	var sb redact.StringBuilder
+	sb.Print([]interface{}{sv})
+	sb.Printf("%v", map[string]interface{}{"k": sv})
+	_, _ = redact.HelperForErrorf("%v", []interface{}{sv})
 }
 
 func usage() {
